@@ -8,6 +8,7 @@ import (
 	"os"
 	"reflect"
 	"sort"
+	"strings"
 	"sync"
 
 	"github.com/trustbloc/sidetree-go/pkg/document"
@@ -542,6 +543,19 @@ func codecReplay(args []string) {
 	type shapeT struct {
 		Action string   `json:"action"`
 		Keys   []string `json:"keys"`
+		AName  string   `json:"aname"`
+		KName  string   `json:"kname"`
+	}
+
+	respellName := func(name, how string) string {
+		switch how {
+		case "capitalized":
+			return strings.ToUpper(name[:1]) + name[1:]
+		case "upper":
+			return strings.ToUpper(name)
+		}
+
+		return name
 	}
 
 	type caseT struct {
@@ -582,7 +596,12 @@ func codecReplay(args []string) {
 		}
 
 		for _, k := range c.Shape.Keys {
-			m[k] = sample[k]
+			m[respellName(k, c.Shape.KName)] = sample[k]
+		}
+
+		if a, ok := m["action"]; ok && c.Shape.AName != "exact" {
+			delete(m, "action")
+			m[respellName("action", c.Shape.AName)] = a
 		}
 
 		raw, _ := json.Marshal(m)
